@@ -194,6 +194,9 @@ func vkLKRunOnce(sc vkLKScenario, order []string, T time.Duration) (res vkLKResu
 				add("lookup/wedged/"+string(c.budget), fmt.Sprintf("%s: caller %s did not return although its own context had ended", base, who))
 			}
 		}
+		if w.wedged[c.idx] {
+			add("lookup/wedged/"+string(c.budget), fmt.Sprintf("%s: caller %s was still inside groupLookup after its own Done() had closed and nothing else could move", base, who))
+		}
 		if !c.returned.Load() {
 			continue
 		}
